@@ -307,6 +307,11 @@ func (r *relay) processFrame(f http2.Frame) error {
 			}
 			err = r.continuationState.complete(r.processor(f.StreamID), headers)
 		}
+	case *http2.UnknownFrame:
+		// Frames of a type this implementation does not know (extension frames such as ALTSVC or ORIGIN)
+		// are valid on any connection and must be ignored and discarded, not treated as an error. They are
+		// hop-by-hop, so they are not forwarded either.
+		// See: https://tools.ietf.org/html/rfc7540#section-4.1 and #section-5.5
 	default:
 		err = errors.New("unrecognized frame type")
 	}
